@@ -71,6 +71,7 @@ fn main() {
         "C19" => rig::props::c19::main(tier, replay),
         "C08" => rig::props::c08::main(tier, replay),
         "C16" => rig::props::c16::main(tier, replay),
+        "C17" => rig::props::c17::main(tier, replay),
         "selftest" => rig::props::c03::selftest(),
         _ => {
             eprintln!("unknown property {}", prop);
